@@ -219,6 +219,20 @@ Definition probe_specb (p : params) (live : list (Z * vec)) (im : vstate) (rq : 
         | None => true
         end) live).
 
+(** the soundness half alone (it also holds for IVFPQ, whose scores are not distances to the stored
+    vectors): every returned id is stored in one of the p clusters nearest to the query *)
+Definition probe_soundb (p : params) (im : vstate) (rq : request) (pq : vec) (r : list (Z * Z)) : bool :=
+  let cents := st_centroids im in
+  let np := r_nprobes rq in
+  if negb ((0 <? np) && (np <? Z.of_nat (length cents))) then true
+  else
+    let cdk := map (fun c => F32.key (F32.canon (dist (p_metric p) pq c))) cents in
+    let dp := nth (Z.to_nat (np - 1)) (isort (fun x => x) cdk) 0 in
+    forallb (fun x => match find_entry im (fst x) with
+                      | Some (li, _) => nth (Z.to_nat li) cdk 0 <=? dp
+                      | None => false
+                      end) r.
+
 (** C02: a search from stored node ids is equivalent to the search with those nodes' stored vectors.
     Both answers come from the implementation; they must carry the same scores in the same order, and
     the same (id, score) pairs except inside the group of entries tied with the last one (where the
@@ -313,8 +327,9 @@ Definition step_check (p : params) (h : hstate) (o : vop) : hstate + list Z :=
                         | Some pq, Some im, KIVF => probe_specb p (h_live h) im rq pq out
                         | Some pq, Some im, KPQ => complete_code_results p (h_live h) im rq pq out
                         | Some pq, Some im, KIVFPQ =>
-                            negb ((r_nprobes rq <=? 0) || (p_nlist p <=? r_nprobes rq)) ||
-                            complete_code_results p (h_live h) im rq pq out
+                            probe_soundb p im rq pq out &&
+                            (negb ((r_nprobes rq <=? 0) || (p_nlist p <=? r_nprobes rq)) ||
+                             complete_code_results p (h_live h) im rq pq out)
                         | _, _, _ => true
                         end in
           if negb (err =? 0) then inr (verdict false false [h_i h; 0])
